@@ -100,3 +100,12 @@ func VerifXClientSelect(x XClient, servicePath, serviceMethod string, args inter
 	defer c.mu.Unlock()
 	return c.selector.Select(context.Background(), servicePath, serviceMethod, args)
 }
+
+// VerifCreateWeighted returns the weight createWeighted derives from each server's metadata.
+func VerifCreateWeighted(servers map[string]string) map[string]int {
+	out := make(map[string]int, len(servers))
+	for _, w := range createWeighted(servers) {
+		out[w.Server] = w.Weight
+	}
+	return out
+}
